@@ -247,6 +247,25 @@ func init() {
 				if w.GovExec("pool 1 -> constant product", &ammtypes.MsgUpdatePoolParams{Authority: w.Gov, PoolId: 1, PoolParams: pp}) {
 					c.Ev("leveraged_pool_switched_to_constant_product")
 				}
+				// swap-only blocks first (several swaps on the pool in one batch, nothing else touching
+				// it in between), then the full mix
+				swapsOnly := v.Gen(w, c, gen.Mix{"swapIn1": 10, "swapOut1": 5})
+				swapsOnly.MaxTx = 10
+				swapsOnly.Free(8, nil)
+				// and batches of swaps that pay in the fee denom only: no fee is converted through the
+				// pool, so each swap of the batch is priced on what the previous one left behind and the
+				// product rule is exact
+				for b := 0; b < 4 && !w.Dead; b++ {
+					txs := []*chain.TxRecord{}
+					for i := 0; i < 4; i++ {
+						u := w.Users[(b+i)%len(w.Users)]
+						amt := v.Scale/int64(900+700*i) + int64(b)
+						txs = append(txs, w.Tx(u, &ammtypes.MsgSwapExactAmountIn{Sender: u.S(), Routes: []ammtypes.SwapAmountInRoute{{PoolId: 1, TokenOutDenom: "uatom"}},
+							TokenIn: chain.Coin("uusdc", amt), TokenOutMinAmount: math.NewInt(1)}))
+					}
+					w.Step(5, txs...)
+					c.Ev("fee_denom_only_swap_batch_on_switched_pool")
+				}
 				g.Free(12, g.StdDt)
 				pp.UseOracle = true
 				w.GovExec("pool 1 -> oracle", &ammtypes.MsgUpdatePoolParams{Authority: w.Gov, PoolId: 1, PoolParams: pp})
